@@ -299,6 +299,8 @@ def c18(run):
     run.validate("applayer", t, "Trace_applayer", label="(V) random in-range values of every payload type", chunk=4000)
     t = run.record("applayer", "streams", n=T(run, 2500, 120000))
     run.validate("applayer", t, "Trace_applayer", label="(V) command sequences of 1..6 commands", chunk=4000)
+    t = run.record("own", "reuse", n=T(run, 20, 600))
+    run.validate("own", t, "Trace_own", label="(V) commands decoded into used values (same CID again, the other direction first, cut-short inputs)", chunk=2000)
     t = run.record("applayer", "mckeys", n=T(run, 60, 3000))
     run.validate("applayer", t, "Trace_applayer", label="(V) multicast key derivations (in-TLA+ AES)", chunk=100)
     run.require_kinds("applayer/alstream", "applayer/mckey")
@@ -374,6 +376,8 @@ def c09(run):
     run.validate("frame", t, "Trace_frame", label="(V) uniform + mutated frames: every follow-up decoder with random keys", chunk=10000)
     t = run.record("maccmd", "decodeN", n=T(run, 500, 20000))
     run.validate("maccmd", t, "Trace_maccmd", label="(V) MAC payload decoders incl. wrong lengths", chunk=50000)
+    t = run.record("own", "reuse", n=T(run, 20, 600))
+    run.validate("own", t, "Trace_own", label="(V) decoders given used values (what an earlier decode left behind) and cut-short exact-capacity inputs", chunk=2000)
     t = run.record("regconc", "mix", n=T(run, 6, 80))
     run.validate("crypto", t, "Trace_crypto", label="(V) decoders running while proprietary commands are registered and removed: every call returns (hang watchdog)", chunk=T(run, 60, 200), prefix="C09")
     run.require_kinds("total/total", "frame/bytes", "maccmd/dec")
